@@ -141,7 +141,7 @@ def run(prop, t, budget, inflate, extra_part=None):
                              "expected": " ".join(exp), "actual": resp[:2000]},
                             "[%s sizes] message %s: %s" % (cfg, L.name, bad))
 
-    pc.run_hypothesis(body, 2500 if t == "quick" else 40000)
+    pc.run_hypothesis(body, 3200 if t == "quick" else 40000)
     if extra_part is not None:
         extra_part(res, t)
     return pc.finish()
